@@ -1748,8 +1748,11 @@ impl XmlDocument {
         }
 
         if let Some(d) = value.prolog.declaration_doc.as_ref() {
-            let doc_type = XmlDocumentTypeDeclaration::node(d, &context);
-            document.borrow_mut().push_child(doc_type?);
+            // attached before its markup declarations are read: a default value in an
+            // attribute-list declaration may refer to an entity declared before it
+            XmlDocumentTypeDeclaration::node_attached(d, &context, |doc_type| {
+                document.borrow().push_child(doc_type.clone())
+            })?;
         }
 
         for t in value.prolog.tails.as_slice() {
@@ -1936,6 +1939,14 @@ impl XmlDocumentTypeDeclaration {
         value: &parser::DeclarationDoc<'_>,
         context: &Context,
     ) -> error::Result<Rc<XmlItem>> {
+        Self::node_attached(value, context, |_| {})
+    }
+
+    fn node_attached(
+        value: &parser::DeclarationDoc<'_>,
+        context: &Context,
+        attach: impl FnOnce(&Rc<XmlItem>),
+    ) -> error::Result<Rc<XmlItem>> {
         let (local_name, prefix) = qname(&value.name);
 
         let (system_identifier, public_identifier) = match value.external_id.as_ref() {
@@ -1955,6 +1966,10 @@ impl XmlDocumentTypeDeclaration {
             context: context.next(),
         });
         let declaration_id = declaration.borrow().id();
+
+        let node: Rc<XmlItem> = Rc::new(declaration.clone().into());
+        declaration.borrow().context.add_item(&node);
+        attach(&node);
 
         for subset in &value.internal_subset {
             match subset {
@@ -2020,8 +2035,6 @@ impl XmlDocumentTypeDeclaration {
             }
         }
 
-        let node: Rc<XmlItem> = Rc::new(declaration.clone().into());
-        declaration.borrow().context.add_item(&node);
         Ok(node)
     }
 
